@@ -1,48 +1,85 @@
 import RawPanelVerif.Props.C16
+import RawPanelVerif.Props.C17
 import RawPanelVerif.Lemmas.MonoCompl
 import RawPanelVerif.Model.Tile
+import RawPanelVerif.Model.TileObs
 import RawPanelVerif.Spec.TileSpec
 import RawPanelVerif.Lemmas.TileBar
 import RawPanelVerif.Lemmas.TileCentre
+import RawPanelVerif.Lemmas.TileFits
+import RawPanelVerif.Lemmas.TileWide
+import RawPanelVerif.Lemmas.TileArg
+import RawPanelVerif.Lemmas.TileWork
+import RawPanelVerif.Lemmas.TileWorkLower
+import RawPanelVerif.Lemmas.TileBarCover
 /-!
 # C18 — Tile rendering is total, deterministic, clipped and inversion-exact
 
-`Tile.renderTile` is the model of `WriteDisplayTileNew` (validated against the real renderer on every run).
-It is a total function (no modelled panic: every table access is guarded — `icon_index_guarded`,
-`colour_index_guarded`), hence deterministic by construction.  For **every** text state (any formatting value, pair
-mode, icons, scale, fonts, sizes, strings, integers, colours, absent sub-messages) and every geometry:
+`Tile.renderTile` is the model of `WriteDisplayTileNew` (validated against the real renderer on every run); it is a
+function of the text state and the geometry, hence deterministic by construction (the harness renders every state in
+the order A, B, A, B — B = the same state in the other font face of the same cell width — and compares).
+For **every** text state (any formatting value, pair mode, icons, scale, fonts, sizes, strings, integers, colours, absent
+sub-messages) and every geometry (any `w, h ≥ 0`, any integer shrink / border):
 
+* `tile_total`       **no panic**: the checked form of the whole call (`Model/TileChecked.lean`: every slice access of
+                     the layout — 19-entry colour table, 7-entry icon table, font tables through `StrWidth`/`RenderText` —
+                     and of the drawing of every emitted operation — canvas bytes, font tables, bitmap slices,
+                     `Mono.applyOpC` — is `[i]?`) returns `some` of the plain model's canvas and colours, after at most
+                     `tileWork` loop iterations.  Parts: `tile_layout_total`, `colour_index_guarded`, `icon_index_guarded`;
+                     `colour_index_pinned_counterexample`: the pinned tree read the table before the length test
+                     (index colours 19..31 panic; fixed by `fix:` 75f1773).  Strings are ranged over, never indexed.
+* `tile_work_bound`  **no hang**: with `TitleBarPadding ≤ 3` (documented 2-bit range) one call executes at most
+                     `w·(1+h) + 1522·L + 62·w + 900` loop iterations (`L` = length of all rendered strings), counted by the
+                     tick counter of the checked mono model.  `tile_work_padding_witness`: the field is used unmasked —
+                     `TitleBarPadding = 10^9` on a 64×32 tile costs more than 10^11 iterations: the clause holds on the
+                     documented range only.
 * `tile_size_ok`     the image has exactly the requested size (clause `size`)
 * `tile_active_ok`   outside the active area left by shrink and border every pixel has the blank value (clause `active`)
-* `tile_colours_ok`  the RGB565 pixel/background colours are the requested ones (clause `colours`; all 32 index colours
-                     through the regenerated 19-entry table with its default, all RGB values through the 2-bit quantisation)
-* `box_centred_within_one`  the one/two-line centring rule: a text box that fits is centred to within one pixel
-* `colour_index_pinned_counterexample` — the pinned tree indexed the 19-entry table before testing the bound
-  (panic for index colours 19..31; fixed by `fix:` 75f1773)
-
 * `tile_inversion_ok` rendering the same state inverted yields exactly the complement over the tile (clause `inversion`):
-                     the operation list does not depend on `Inverted`, and every operation maps complementary canvases to
+                     the operation list does not depend on `Inverted`, every operation maps complementary canvases to
                      complementary canvases (Lemmas/MonoCompl.lean)
+* `tile_colours_ok`  the RGB565 pixel/background colours are the requested ones (clause `colours`).  The Spec side is
+                     written from the protocol: band table for RGB channels (`mapConstrain_q2`: the code's
+                     truncating-division-and-clamp is that table for every integer), `[k]?` look-up in the regenerated
+                     colour table with `DEFAULT` for indices beyond it (`color6_idx`), documented 5/6/5 expansion
+                     (`color565_eq`)
+* `tile_export`      the same claim on the bytes `GetImgSliceRGB` returns (clause `export`), composed with C17's
+                     `sliceRGB_size` / `sliceRGB_pixel` (the halves of `C17.export_holds`): `2·w·h` bytes, every pixel's
+                     big-endian word is the requested pixel / background colour according to its bit
+* `tile_argument_ok` the argument after the call (`fillNil`: absent `TextStyling`, its two fonts, `Scale` become empty
+                     messages) differs from the argument before it only by absent → empty (clause `argument`);
+                     `tile_argument_idempotent`; `tile_second_call_same`: rendering the mutated argument again gives the
+                     same image, colours and export
+* `box_centred_within_one`  the one/two-line centring arithmetic: a box that fits is centred to within one pixel
+* `centre_ok`        clause `centre` (`Spec.Tile.centreOk`), **no hypothesis beyond the Spec's own domain** (rendered
+                     strings without LF/CR and with alphanumeric first/last character): the Spec's guard — formats 10/11,
+                     proportional, no extra spacing, border ≥ 0, the line(s) fit the active height (`fitsV`, measured
+                     with the renderer's own `LineHeight()`, which the harness prints and the model reproduces) — yields
+                     `linesFit` on the inputs (`vfits_of_arith`); then a text that fits horizontally (`fits_of_arith`:
+                     `StrWidth ≤ activeWidth` puts the text box inside the active area) has its ink ends exactly at the box
+                     ends (`text_ink_extent`, from `edge_facts*` over the regenerated font tables; `centre_ok_partial`), and
+                     a text that is too wide gets the left margin 0 and shows nothing or ink in the left-most active
+                     column (`text_left_touch`, Lemmas/TileWide.lean), where the clause — about ink strictly inside the
+                     active area — demands nothing (`centre_ok_vpartial`).  `tile_check`: all clauses of
+                     `Spec.Tile.check` together.
+                     `centre_needs_vertical_fit_counterexample`: the vertical-fit guard (added in this round; the property
+                     text says "fits … horizontally and vertically") is needed: two lines on a 64×4 tile, second line
+                     "j": only the dot is visible, strictly inside, margins 33 / 30 — reproduced on the real renderer.
+* `bar_monotone`     clause `bar` (`Spec.Tile.checkBar`): scale type 1, positive range (`0 < int32(RangeHigh-RangeLow)`),
+                     value text unchanged (`bar_monotone_hidden`: hidden), `v1 ≤ v2`, everything else equal, for **all**
+                     integers / ranges / geometries: no pixel lit at `v1` is dark at `v2` (Lemmas/DblMono.lean: the
+                     correctly rounded binary64 operations are monotone; Lemmas/MonoSub.lean, Lemmas/TileBar.lean).
+                     `bar_reversed_range_counterexample`: the range hypothesis is needed.
+* `bar_covered`      the same for a value text that **changes** with the value, stated on the bar section only: everything
+                     the scale section draws at `v1` (`barLayer`) is lit in the image at `v2` (`bar_layer_monotone` +
+                     `bar_layer_in_image`: the operation list is `pre ++ barOps ++ post` and `post` only writes the
+                     foreground colour unless a late `drawAllPixels` icon is shown — Lemmas/TileBarCover.lean,
+                     Lemmas/TileGrow.lean)
+* `bar_span_monotone` all scale types (1 bar, 2 marker, 3 centred bar): the rectangle the scale section fills
+                     (`barSpan`, `bar_span_drawn`) never moves left when the value grows (both edges monotone)
 
-* `bar_monotone` (clause `bar`, `Spec.Tile.checkBar`): scale type 1, positive range (`0 < int32(RangeHigh-RangeLow)`),
-                     value text unchanged (`bar_monotone_hidden`: value hidden, the harness's bar pairs), `v1 ≤ v2`,
-                     everything else equal, for **all** integers / ranges / geometries: no pixel lit at `v1` is dark at
-                     `v2`.  Ingredients: the correctly rounded binary64 operations of Base/Dbl.lean are monotone
-                     (Lemmas/DblMono.lean: `divRNE_mono`, `rnD_mono`, `trunc_mulInt_rn_mono`), so the bar length is
-                     (`bar_length_monotone`, within its extent: `bar_length_in_extent`); every layout step only appends
-                     operations, and every drawing primitive is monotone in the canvas contents (Lemmas/MonoSub.lean,
-                     Lemmas/TileBar.lean).  `bar_reversed_range_counterexample`: the range hypothesis is needed.
-* `centre_ok_partial` (clause `centre`, `Spec.Tile.centreOk`): formats 10/11, strings without LF/CR and with
-                     alphanumeric first/last characters (the Spec's own domain), **plus the hypothesis that every
-                     rendered text box fits the active area** (`TileTextFits`): the first and last lit column of each
-                     row band are exactly the ends of the text box (`text_ink_extent`, from `edge_facts*` over the
-                     regenerated font tables), hence the margins differ by at most one pixel.
-                     `tile_check_partial`: all clauses of `Spec.Tile.check` together under these hypotheses.
-
-NOT YET PROVED (validated on the real renderer's output on every run): `centreOk` without `TileTextFits`, i.e. from
-the Spec's own guard alone ("the observed ink is strictly inside the active area"): that needs, for clipped texts, that
-ink cut off at an edge of the active area leaves visible ink touching that edge (a per-glyph vertical connectivity
-fact); no counterexample is known.
+Not proved at image level: monotonicity of the *lit set* for scale types 2 and 3 (the marker / the left half of the
+centred bar legitimately go dark when the value grows; `bar_span_monotone` is the statement that is true of them).
 -/
 namespace RawPanelVerif.C18
 open RawPanelVerif RawPanelVerif.Mono RawPanelVerif.Tile RawPanelVerif.C16 RawPanelVerif.C20
@@ -275,29 +312,54 @@ theorem color565_eq (c : Int) : color565 c = Spec.Tile.c565 c := by
       t6_eq (c / 4 % 4) (Int.emod_nonneg _ (by omega)) (Int.emod_lt_of_pos _ (by omega)),
       t5_eq (c % 4) (Int.emod_nonneg _ (by omega)) (Int.emod_lt_of_pos _ (by omega))]
 
-theorem mapConstrain_q2 (x : Int) : mapConstrain x 0 255 0 3 = Spec.Tile.q2 x ∧ 0 ≤ Spec.Tile.q2 x ∧ Spec.Tile.q2 x ≤ 3 := by
+/-- `MapAndConstrainValue(x, 0, 255, 0, 3)` (truncating division, then clamping) is the Spec's band table
+0-84, 85-169, 170-254, 255.. → 0,1,2,3, for every integer `x` (negative and beyond 255 included) -/
+theorem mapConstrain_q2 (x : Int) : mapConstrain x 0 255 0 3 = Spec.Tile.q2 x := by
   unfold mapConstrain Tile.constrain Spec.Tile.q2
   simp only [Int.sub_zero, Int.add_zero]
-  have e : (x * (3:Int)).tdiv 255 = (x * 3).tdiv 255 := rfl
-  refine ⟨?_, ?_, ?_⟩
-  · trivial
-  · split <;> (try split) <;> omega
-  · split <;> (try split) <;> omega
+  by_cases hx : 0 ≤ x
+  · rw [Int.tdiv_eq_ediv_of_nonneg (by omega)]
+    repeat' split
+    all_goals omega
+  · have e : (x * 3).tdiv 255 = -((-(x * 3)) / 255) := by
+      rw [← Int.tdiv_eq_ediv_of_nonneg (by omega), Int.neg_tdiv, Int.neg_neg]
+    rw [e]
+    repeat' split
+    all_goals omega
+
+theorem q2_range (x : Int) : 0 ≤ Spec.Tile.q2 x ∧ Spec.Tile.q2 x ≤ 3 := by
+  unfold Spec.Tile.q2
+  repeat' split
+  all_goals omega
 
 def specCol : Col → Spec.Tile.Col
   | .rgb r g b => .rgb r g b
   | .idx i => .idx i
   | .empty => .empty
 
+/-- the guarded table access of `convertToColorRGB16bit` (length test, then index; default entry 0) reads the same
+entry as the Spec's `[k]?` look-up with default — for every index, with whatever table the extractor regenerated
+(only the closed fact "the table has an entry 0" is evaluated) -/
+theorem color6_idx (i : Int) : color6 (.idx i) = Spec.Tile.colour6 (.idx i) := by
+  unfold color6 Spec.Tile.colour6 Spec.Tile.tableEntry
+  simp only []
+  generalize (i.emod 32).toNat = k
+  by_cases hk : k < Gen.buttonColors.size
+  · rw [if_pos hk, Array.getD_eq_getD_getElem?, Array.getElem?_eq_getElem hk]
+    simp
+  · rw [if_neg hk, Array.getElem?_eq_none (by omega)]
+    simp only [Option.map_none]
+    decide
+
 theorem color6_eq (c : Col) : color6 c = Spec.Tile.colour6 (specCol c) := by
   cases c with
   | rgb r g b =>
     unfold color6 Spec.Tile.colour6 specCol u32
     simp only []
-    obtain ⟨e1, l1, u1⟩ := mapConstrain_q2 r
-    obtain ⟨e2, l2, u2⟩ := mapConstrain_q2 g
-    obtain ⟨e3, l3, u3⟩ := mapConstrain_q2 b
-    rw [e1, e2, e3]
+    rw [mapConstrain_q2 r, mapConstrain_q2 g, mapConstrain_q2 b]
+    obtain ⟨l1, u1⟩ := q2_range r
+    obtain ⟨l2, u2⟩ := q2_range g
+    obtain ⟨l3, u3⟩ := q2_range b
     generalize Spec.Tile.q2 r = a at *
     generalize Spec.Tile.q2 g = bb at *
     generalize Spec.Tile.q2 b = cc at *
@@ -309,7 +371,7 @@ theorem color6_eq (c : Col) : color6 c = Spec.Tile.colour6 (specCol c) := by
     have h5 : (bb * 4).emod 4294967296 = bb * 4 := Int.emod_eq_of_lt (by omega) (by omega)
     have h6 : cc.emod 4294967296 = cc := Int.emod_eq_of_lt (by omega) (by omega)
     rw [h4, h5, h6]
-  | idx i => rfl
+  | idx i => exact color6_idx i
   | empty => rfl
 
 /-- **colours**: the RGB565 pixel / background colours of the returned image are the ones the state requests -/
@@ -325,13 +387,194 @@ theorem tile_colours_ok (inp : TileIn) (inv : Bool) (w h : Nat) (shrink border :
     | none => rfl
     | some c => simp only [Option.map_some]; rw [color565_eq, color6_eq]; cases c <;> rfl
 
-/-- no index panic: the modifier icon table is indexed only with 0..6 and has 7 entries; the colour table is indexed
-only below its length (the code after `fix:` 75f1773) -/
-theorem icon_index_guarded : Gen.icons8by8.size = 7 := by decide
+/-! ## total: no panic, no hang -/
+
+/-- **no panic in the layout**: the checked layout (`Model/TileChecked.lean`: font tables, icon table read with `[i]?`)
+returns what the plain model computes, for every text state — absent sub-messages, formats beyond 12, any strings,
+any integers — and every geometry -/
+theorem tile_layout_total (inp : TileIn) (width height shrink border : Int) :
+    tileAccC inp width height shrink border = some (tileAcc inp width height shrink border) :=
+  tileAccC_eq inp width height shrink border
+
+/-- **no panic in the colour conversion**: the 19-entry table is read only below its length (the code after `fix:`
+75f1773), entry 0 exists — for all index colours (incl. 19..31 and beyond), all RGB values -/
+theorem colour_index_guarded (c : Col) : color6C c = some (color6 c) := color6C_eq c
+
+/-- the modifier icon table is indexed only with 0..6 and has 7 entries -/
+theorem icon_index_guarded : Gen.icons8by8.size = 7 ∧
+    ∀ m : Int, m ≥ 1 ∧ m ≤ 7 → iconBytesC (m - 1).toNat = some (iconBytes (m - 1).toNat) := by
+  refine ⟨by decide, fun m hm => ?_⟩
+  have := icon_guard m (fun b => b) #[]
+  rw [if_pos hm, if_pos hm] at this
+  simpa using this
 
 /-- The pinned tree evaluated `buttonColors[index]` before the length test (`su.Qint` is strict in both arguments):
-for colour index 19 the access is out of range in a table of 19 entries. -/
-theorem colour_index_pinned_counterexample : Gen.buttonColors.size = 19 ∧ ¬ (19 < Gen.buttonColors.size) := by decide
+for index colours 19..31 the access is out of range in a table of 19 entries — a panic. -/
+theorem colour_index_pinned_counterexample :
+    Gen.buttonColors.size = 19 ∧ ∀ i : Int, 19 ≤ i.emod 32 → color6Pinned (.idx i) = none :=
+  ⟨by decide, color6Pinned_panics⟩
+
+/-- **total** (`tile_total`): for every text state, every tile size `w, h ≥ 0` and every shrink / border, the whole
+checked call — `NewImage`, the two colour conversions, black-out, bounding box, layout, and the drawing of every emitted
+operation with every canvas / font-table / bitmap access checked (`Mono.applyOpC`) — ends without a panic, with the canvas
+and colours of the plain model, after at most `tileWork` loop iterations.  (A negative size is outside the domain:
+`renderTileC_negative`, `make` panics.) -/
+theorem tile_total (inp : TileIn) (inv : Bool) (w h : Nat) (shrink border : Int) :
+    ∃ k, renderTileC inp inv w h shrink border = some (renderTile inp inv w h shrink border, tileColours inp, k) ∧
+      k ≤ tileWork inp w h shrink border :=
+  renderTileC_eq inp inv w h shrink border
+
+/-- **no hang** (`tile_work_bound`): with `TitleBarPadding ≤ 3` (its documented 2-bit range) the number of loop
+iterations of one call is at most `w·(1+h) + 1522·L + 62·w + 900`, `L` = total length of the rendered strings (title,
+two label lines, the two formatted values, twice "1/") — for every other field of the state unrestricted -/
+theorem tile_work_bound (inp : TileIn) (inv : Bool) (w h : Nat) (shrink border : Int)
+    (hp : (inp.styling.getD {}).titlePad ≤ 3) :
+    ∃ k, renderTileC inp inv w h shrink border = some (renderTile inp inv w h shrink border, tileColours inp, k) ∧
+      k ≤ w * (1 + h) + 1522 * textLen inp + 62 * w + 900 := by
+  obtain ⟨k, e, b⟩ := renderTileC_eq inp inv w h shrink border
+  exact ⟨k, e, Nat.le_trans b (tileWork_le inp w h shrink border hp)⟩
+
+/-- the fields of a filled-round-rectangle operation -/
+def frOf : Op → Option (Int × Int × Int × Int × Int × Bool)
+  | .frrect x y w h r c => some (x, y, w, h, r, c)
+  | _ => none
+
+theorem frOf_some {op : Op} {x y w h r : Int} {c : Bool} (e : frOf op = some (x, y, w, h, r, c)) : op = .frrect x y w h r c := by
+  cases op <;> simp [frOf] at e
+  obtain ⟨rfl, rfl, rfl, rfl, rfl, rfl⟩ := e
+  rfl
+
+/-- **where the domain ends**: `TitleBarPadding` is used unmasked.  For the 64×32 tile with a solid title bar and
+`TitleBarPadding = 1 000 000 000` (a legal `uint32`, outside the documented 0..3) the title box is 2 000 000 007 rows
+high and the call executes more than 10^11 loop iterations (every row is visited and clipped away pixel by pixel):
+the "no hang" clause holds on the documented range only. -/
+theorem tile_work_padding_witness :
+    ∃ k c cols, renderTileC { title := [65], solid := true, styling := some { titlePad := 1000000000 } } false 64 32 0 0 =
+      some (c, cols, k) ∧ 100000000000 ≤ k := by
+  obtain ⟨k, e, _⟩ := renderTileC_eq { title := [65], solid := true, styling := some { titlePad := 1000000000 } } false 64 32 0 0
+  refine ⟨k, _, _, e, ?_⟩
+  have hops : (tileOps { title := [65], solid := true, styling := some { titlePad := 1000000000 } } ((64 : Nat) : Int)
+      ((32 : Nat) : Int) 0 0).filterMap frOf = [(0, 0, 64, 2000000007, 1, true)] := by decide +kernel
+  have hm : Op.frrect 0 0 64 2000000007 1 true ∈
+      tileOps { title := [65], solid := true, styling := some { titlePad := 1000000000 } } ((64 : Nat) : Int) ((32 : Nat) : Int) 0 0 := by
+    have : (0, 0, 64, 2000000007, 1, true) ∈ (tileOps { title := [65], solid := true, styling := some { titlePad := 1000000000 } }
+        ((64 : Nat) : Int) ((32 : Nat) : Int) 0 0).filterMap frOf := by rw [hops]; simp
+    obtain ⟨op, hop, he⟩ := List.mem_filterMap.1 this
+    rw [← frOf_some he]; exact hop
+  -- unfold the checked call down to the run of the operation list
+  unfold renderTileC newCanvasC at e
+  rw [if_neg (by decide), tileColoursC_eq, tileAccC_eq] at e
+  simp only [] at e
+  cases hr : runOpsCList (invertPixels (newCanvas ((64 : Nat) : Int).toNat ((32 : Nat) : Int).toNat) false, 0)
+      (tileOps { title := [65], solid := true, styling := some { titlePad := 1000000000 } } ((64 : Nat) : Int) ((32 : Nat) : Int) 0 0) with
+  | none =>
+    have e' := e
+    unfold tileOps layoutOps at hr
+    simp only [] at hr
+    rw [hr] at e'
+    cases e'
+  | some s' =>
+    have ge := runOpsCList_frrect_ge _ 0 0 64 2000000007 1 true hm _ s' hr
+    have e' := e
+    unfold tileOps layoutOps at hr
+    simp only [] at hr
+    rw [hr] at e'
+    simp only [Option.map_some, Option.some.injEq, Prod.mk.injEq] at e'
+    obtain ⟨_, _, rfl⟩ := e'
+    have : ((64 : Int) - 2 * 1).toNat * (1 + (2000000007 : Int).toNat) = 62 * 2000000008 := by decide
+    rw [this] at ge
+    simp only [] at ge
+    omega
+
+/-! ## export: the bytes `GetImgSliceRGB` returns -/
+
+theorem renderTile_wf (inp : TileIn) (inv : Bool) (w h : Nat) (shrink border : Int) :
+    (renderTile inp inv w h shrink border).WF :=
+  C16.reachable_wf w h (.inv inv :: tileOps inp w h shrink border)
+
+theorem color565_range (c : Int) : 0 ≤ color565 c ∧ color565 c < 65536 := by
+  unfold color565
+  simp only []
+  omega
+
+theorem tileColours_range (inp : TileIn) :
+    (0 ≤ (tileColours inp).1 ∧ (tileColours inp).1 < 65536) ∧ (0 ≤ (tileColours inp).2 ∧ (tileColours inp).2 < 65536) := by
+  unfold tileColours
+  simp only []
+  constructor
+  · cases inp.pix with
+    | none => exact ⟨by decide, by decide⟩
+    | some c => exact color565_range _
+  · cases inp.bg with
+    | none => exact ⟨by decide, by decide⟩
+    | some c => exact color565_range _
+
+/-- **export** (`Spec.Tile.exportOk`, composed with C17's `sliceRGB_size` / `sliceRGB_pixel`, the two halves of
+`C17.export_holds`): `GetImgSliceRGB()` of the returned image does not panic, has `2·w·h` bytes, and the big-endian word
+of every pixel is the *requested* pixel colour where the bit is set and the requested background colour where it is
+clear — requested as the Spec reads the state (band table / regenerated colour table / documented 5-6-5 expansion) -/
+theorem tile_export (inp : TileIn) (inv : Bool) (w h : Nat) (shrink border : Int) :
+    ∃ rgb, tileRGB inp inv w h shrink border = some rgb ∧
+      Spec.Tile.exportOk (specCase inp inv w h shrink border) (getPx (renderTile inp inv w h shrink border))
+        (some (rgb.size, Pix.byteAt rgb)) = true := by
+  have hwf := renderTile_wf inp inv w h shrink border
+  obtain ⟨⟨p0, p1⟩, ⟨b0, b1⟩⟩ := tileColours_range inp
+  have hp : (tileColours inp).1.toNat < 65536 := by omega
+  have hb : (tileColours inp).2.toNat < 65536 := by omega
+  obtain ⟨rgb, r1, r2⟩ := C17.sliceRGB_size _ hwf (tileColours inp).1.toNat (tileColours inp).2.toNat
+  obtain ⟨rgb', r1', r3⟩ := C17.sliceRGB_pixel _ hwf (tileColours inp).1.toNat (tileColours inp).2.toNat hp hb
+  rw [r1] at r1'; cases r1'
+  have hW := (tile_size_ok inp inv w h shrink border).1.1
+  have hH := (tile_size_ok inp inv w h shrink border).1.2.1
+  have hcol := tile_colours_ok inp inv w h shrink border
+  unfold Spec.Tile.coloursOk at hcol
+  simp only [beq_iff_eq] at hcol
+  refine ⟨rgb, r1, ?_⟩
+  unfold Spec.Tile.exportOk
+  simp only [Bool.and_eq_true, beq_iff_eq]
+  rw [hW, hH] at r2
+  refine ⟨r2, ?_⟩
+  rw [List.all_eq_true]
+  intro p hpm
+  have hpx : p.1 < w ∧ p.2 < h := by
+    unfold Spec.Tile.pixels specCase at hpm
+    simp only [List.mem_flatMap, List.mem_range, List.mem_map] at hpm
+    obtain ⟨Y, hY, X, hX, rfl⟩ := hpm
+    exact ⟨hX, hY⟩
+  obtain ⟨e1, e2⟩ := r3 p.1 p.2 (by rw [hW]; exact hpx.1) (by rw [hH]; exact hpx.2)
+  rw [hW] at e1 e2
+  unfold Spec.Tile.exportPixelOk
+  simp only []
+  have hkw : (specCase inp inv w h shrink border).w = w := rfl
+  rw [hkw, e1, e2, ← hcol]
+  cases getPx (renderTile inp inv w h shrink border) p.1 p.2
+  · simp only [Bool.false_eq_true, if_false, beq_iff_eq]; omega
+  · simp only [if_true, beq_iff_eq]; omega
+
+/-- non-vacuity: an amber-on-dark-blue 8×8 tile with a title: the export exists and is not constant -/
+example : (tileRGB { title := [65], pix := some (.idx 8), bg := some (.rgb 0 0 200) } false 8 8 0 0).map
+    (fun rgb => (rgb.size, Pix.byteAt rgb 0 * 256 + Pix.byteAt rgb 1, Pix.byteAt rgb 6 * 256 + Pix.byteAt rgb 7)) =
+    some (128, 40960, 703) := by
+  decide +kernel
+
+/-! ## argument -/
+
+/-- **argument** (`Spec.Tile.argOk`): after the call the argument is the filled form `fillNil` of the state, which the
+Spec accepts: nothing but absent → empty sub-messages changed.  (`Tile.fillNil_idem`: filling is idempotent;
+`Tile.renderTile_fillNil`: the filled state renders exactly like the original one.) -/
+theorem tile_argument_ok (inp : TileIn) (inv : Bool) :
+    Spec.Tile.argOk (obsArg inp inv) (obsArg (fillNil inp) inv) = true := fillNil_arg_ok inp inv
+
+theorem tile_argument_idempotent (inp : TileIn) : fillNil (fillNil inp) = fillNil inp := fillNil_idem inp
+
+/-- rendering the argument as the first call left it gives the same image, colours and export again -/
+theorem tile_second_call_same (inp : TileIn) (inv : Bool) (w h : Nat) (shrink border : Int) :
+    renderTile (fillNil inp) inv w h shrink border = renderTile inp inv w h shrink border ∧
+    tileColours (fillNil inp) = tileColours inp ∧
+    tileRGB (fillNil inp) inv w h shrink border = tileRGB inp inv w h shrink border := by
+  refine ⟨renderTile_fillNil inp inv w h shrink border, rfl, ?_⟩
+  unfold tileRGB
+  rw [renderTile_fillNil, tileColours_fillNil]
 
 /-! ## bar -/
 
@@ -467,6 +710,162 @@ example :
 /-- big ranges (the product value·width exceeds 32 bits; the quotient is not exactly representable) -/
 example : barLen 100000000 2000000000 128 = 6 ∧ barLen 1999999999 2000000000 128 = 127 ∧
     barLen 2000000000 2000000000 128 = 128 := by decide +kernel
+
+/-! ## bar, when the printed value changes: the bar section stays visible -/
+
+theorem Sub.trans' {a b c : Canvas} (h1 : Sub a b) (h2 : Sub b c) : Sub a c :=
+  ⟨h1.wf, h2.wf', by rw [h2.geo, h1.geo], fun X Y hX hY hl => by
+    have := h2.vis X Y (by rw [h1.geo]; exact hX) (by rw [h1.geo]; exact hY) (by rw [h1.geo]; exact h1.vis X Y hX hY hl)
+    rw [h1.geo] at this; exact this⟩
+
+/-- the start canvas of a call (blank, bounding box = active area), as in `renderTile_unfold` -/
+def tileStart (inv : Bool) (w h : Nat) (shrink border : Int) : Canvas :=
+  setBoundingBox (applyOp (invertPixels (newCanvas w h) inv) (.frect 0 0 w h false)) border border
+    (activeWH w h shrink border).1 (activeWH w h shrink border).2
+
+theorem tileStart_facts (inv : Bool) (w h : Nat) (shrink border : Int) :
+    (tileStart inv w h shrink border).WF ∧ (tileStart inv w h shrink border).geo.W = w ∧
+    (tileStart inv w h shrink border).geo.H = h ∧ (tileStart inv w h shrink border).geo.inv = inv ∧
+    ∀ X Y, X < w → Y < h → getPx (tileStart inv w h shrink border) X Y = inv := by
+  obtain ⟨hwf1, hg1, hblank⟩ := blackout w h inv
+  unfold tileStart
+  generalize applyOp (invertPixels (newCanvas w h) inv) (.frect 0 0 w h false) = c1 at hwf1 hg1 hblank
+  refine ⟨?_, ?_, ?_, ?_, ?_⟩
+  · unfold setBoundingBox Canvas.WF at *; simpa using hwf1
+  · unfold setBoundingBox; simp only []; rw [hg1]; rfl
+  · unfold setBoundingBox; simp only []; rw [hg1]; rfl
+  · unfold setBoundingBox; simp only []; rw [hg1]; rfl
+  · intro X Y hX hY
+    have : getPx (setBoundingBox c1 border border (activeWH w h shrink border).1 (activeWH w h shrink border).2) X Y
+        = getPx c1 X Y := by unfold getPx setBoundingBox; simp
+    rw [this]; exact hblank X Y hX hY
+
+/-- nothing is lit on the start canvas: it is below every canvas of the same geometry -/
+theorem tileStart_sub (inv : Bool) (w h : Nat) (shrink border : Int) (X : Canvas) (hwf : X.WF)
+    (hgeo : X.geo = (tileStart inv w h shrink border).geo) : Sub (tileStart inv w h shrink border) X := by
+  obtain ⟨swf, sW, sH, sinv, sblank⟩ := tileStart_facts inv w h shrink border
+  refine ⟨swf, hwf, hgeo, fun x y hx hy hl => ?_⟩
+  rw [sW] at hx; rw [sH] at hy
+  rw [sblank x y hx hy, sinv] at hl
+  simp at hl
+
+theorem runOps_touch (ops : Array DOp) (c : Canvas) (hwf : c.WF) : (runOps ops c).WF ∧ (runOps ops c).geo = c.geo := by
+  have t := draws_touch (ops.toList.map DOp.toOp) (by
+    intro op hop
+    simp only [List.mem_map] at hop
+    obtain ⟨d, _, rfl⟩ := hop
+    cases d <;> rfl) c hwf
+  exact ⟨t.wf, t.geo⟩
+
+/-- the bar layer: the scale section's operations alone, on the blank tile -/
+def barLayer (inp : TileIn) (inv : Bool) (w h : Nat) (shrink border : Int) : Canvas :=
+  runOps (barOps inp w h shrink border) (tileStart inv w h shrink border)
+
+theorem renderTile_runOps (inp : TileIn) (inv : Bool) (w h : Nat) (shrink border : Int) :
+    renderTile inp inv w h shrink border = runOps (tileAcc inp w h shrink border).ops (tileStart inv w h shrink border) := by
+  rw [renderTile_unfold]; rfl
+
+/-- **the bar section stays visible**: unless the "no access" icon or a modifier icon (the two `drawAllPixels` bitmaps
+drawn after it) is shown, every pixel the scale section lights on the blank tile — base line, bar / marker / centred bar,
+limit markers — is lit in the final image: for every scale type, every format (the value text may be anything), pair
+mode, title, fonts, geometry -/
+theorem bar_layer_in_image (inp : TileIn) (inv : Bool) (w h : Nat) (shrink border : Int)
+    (hic : inp.stateIcon ≠ 3 ∧ ¬ (inp.modIcon ≥ 1 ∧ inp.modIcon ≤ 7)) :
+    Sub (barLayer inp inv w h shrink border) (renderTile inp inv w h shrink border) := by
+  obtain ⟨pre, post, hops, hlit⟩ := tileAcc_bar_decomp inp w h shrink border hic
+  obtain ⟨swf, _⟩ := tileStart_facts inv w h shrink border
+  rw [renderTile_runOps, hops, runOps_append, runOps_append]
+  unfold barLayer
+  obtain ⟨pwf, pgeo⟩ := runOps_touch pre _ swf
+  have h1 : Sub (runOps (barOps inp w h shrink border) (tileStart inv w h shrink border))
+      (runOps (barOps inp w h shrink border) (runOps pre (tileStart inv w h shrink border))) :=
+    runOps_sub _ (tileStart_sub inv w h shrink border _ pwf pgeo)
+  unfold runOps at h1 ⊢
+  refine foldl_grow _ ?_ _ _ h1
+  intro op hop
+  simp only [List.mem_map] at hop
+  obtain ⟨d, hd, rfl⟩ := hop
+  exact hlit d hd
+
+/-- the bar layer grows with the value: scale type 1, positive range, `v1 ≤ v2` — for every format -/
+theorem bar_layer_monotone (inp : TileIn) (v2 : Int) (inv : Bool) (w h : Nat) (shrink border : Int)
+    (ht : (inp.scale.getD {}).stype = 1) (hr : 0 < i32 ((inp.scale.getD {}).rh - (inp.scale.getD {}).rl))
+    (hv : inp.intVal ≤ v2) :
+    Sub (barLayer inp inv w h shrink border) (barLayer (setVal inp v2) inv w h shrink border) := by
+  obtain ⟨swf, _⟩ := tileStart_facts inv w h shrink border
+  unfold barLayer barOps
+  have e1 : (setVal inp v2).fmt = inp.fmt := rfl
+  have e2 : derive (setVal inp v2) w h shrink border = derive inp w h shrink border := rfl
+  have e3 : availOf (setVal inp v2) (derive inp w h shrink border) w h = availOf inp (derive inp w h shrink border) w h := rfl
+  rw [e1, e2, e3]
+  split
+  · exact Sub.refl _ (runOps_touch _ _ swf).1
+  · split
+    · unfold scaleOps
+      exact (scaleBar_R {} inp v2 (derive inp w h shrink border).sc w (derive inp w h shrink border).aw
+        (derive inp w h shrink border).ah ht hr hv).sub _ _ (Sub.refl _ swf)
+    · exact Sub.refl _ (runOps_touch _ _ swf).1
+
+/-- **bar, for a value text that changes with the value** (scale type 1, positive range, `v1 ≤ v2`, no late
+`drawAllPixels` icon): everything the scale section shows at `v1` — in particular the whole bar of length
+`barLen (v1 - low) range activeWidth` — is lit in the image rendered at `v2`.  Stated on the bar section only: the digits
+of the printed value are different pixels in the two images. -/
+theorem bar_covered (inp : TileIn) (v2 : Int) (inv : Bool) (w h : Nat) (shrink border : Int)
+    (ht : (inp.scale.getD {}).stype = 1) (hr : 0 < i32 ((inp.scale.getD {}).rh - (inp.scale.getD {}).rl))
+    (hv : inp.intVal ≤ v2) (hic : inp.stateIcon ≠ 3 ∧ ¬ (inp.modIcon ≥ 1 ∧ inp.modIcon ≤ 7)) :
+    Sub (barLayer inp inv w h shrink border) (renderTile (setVal inp v2) inv w h shrink border) :=
+  Sub.trans' (bar_layer_monotone inp v2 inv w h shrink border ht hr hv)
+    (bar_layer_in_image (setVal inp v2) inv w h shrink border hic)
+
+/-- **bar, all scale types**: the rectangle the scale section fills (`barSpan`: type 1 a bar from the left edge, type 2
+a 3-pixel marker, type 3 a bar from the centre; `bar_span_drawn`: `scaleBar` draws exactly this rectangle in the rows
+`activeHeight-3…`) never moves left when the value grows: for `v1 ≤ v2`, a positive range and an active width of at least 3
+pixels, its left edge and its right edge at `v2` are at or right of those at `v1` (type 1: the left edge stays at 0 and
+the bar only gets longer).  With `bar_layer_in_image` the rectangle is visible in the image for every value text. -/
+theorem bar_span_monotone (stype v1 v2 low range aw : Int) (hs : stype = 1 ∨ stype = 2 ∨ stype = 3)
+    (hr : 0 < range) (haw : 3 ≤ aw) (hv : v1 ≤ v2) :
+    ∀ x1 d1 x2 d2, barSpan stype (barLen (v1 - low) range aw) aw = some (x1, d1) →
+      barSpan stype (barLen (v2 - low) range aw) aw = some (x2, d2) → x1 ≤ x2 ∧ x1 + d1 ≤ x2 + d2 := by
+  have hm := barLen_mono (v1 - low) (v2 - low) range aw hr (by omega) (by omega)
+  obtain ⟨l1, u1⟩ := barLen_range (v1 - low) range aw (by omega)
+  obtain ⟨l2, u2⟩ := barLen_range (v2 - low) range aw (by omega)
+  generalize barLen (v1 - low) range aw = w1 at *
+  generalize barLen (v2 - low) range aw = w2 at *
+  intro x1 d1 x2 d2 e1 e2
+  rcases hs with rfl | rfl | rfl
+  · unfold barSpan at e1 e2
+    simp only [if_true] at e1 e2
+    split at e1 <;> split at e2 <;> simp only [Option.some.injEq, Prod.mk.injEq, reduceCtorEq] at e1 e2
+    obtain ⟨rfl, rfl⟩ := e1
+    obtain ⟨rfl, rfl⟩ := e2
+    omega
+  · unfold barSpan at e1 e2
+    simp only [show ¬ (2 : Int) = 1 by decide, if_false, if_true, Option.some.injEq, Prod.mk.injEq] at e1 e2
+    obtain ⟨rfl, rfl⟩ := e1
+    obtain ⟨rfl, rfl⟩ := e2
+    have := marker_monotone w1 w2 aw hm haw
+    omega
+  · exact centre_bar_edges_monotone w1 w2 aw hm l1 u2 (by omega) x1 d1 x2 d2 e1 e2
+
+/-- the scale section draws the `barSpan` rectangle (3 rows high, radius 0, foreground colour) -/
+theorem bar_span_drawn (inp : TileIn) (sc : Scale) (width aw ah x wd : Int)
+    (hs : sc.stype > 0 ∧ i32 (sc.rh - sc.rl) ≠ 0)
+    (hb : barSpan sc.stype (barLen (inp.intVal - sc.rl) (i32 (sc.rh - sc.rl)) aw) aw = some (x, wd)) :
+    DOp.frrect x (ah - 3) wd 3 0 true ∈ (scaleOps inp sc width aw ah).toList :=
+  scaleOps_bar_mem inp sc width aw ah x wd hs hb
+
+/-- non-vacuity: a 64×32 tile, value 30 → 70 in 0..100 printed as an integer (different digits at 30 and 70): the scale
+section is the base line plus the bar of 19 resp. 44 pixels in rows 29..31 -/
+def exBar : TileIn := { intVal := 30, title := [65], scale := some { stype := 1, rl := 0, rh := 100, ll := 0, lh := 100 } }
+example : (barOps exBar 64 32 0 0).size = 2 := by decide +kernel
+example : (barOps exBar 64 32 0 0).toList.filterMap (fun d => frOf d.toOp) = [(0, 29, 19, 3, 0, true)] := by decide +kernel
+example : (barOps (setVal exBar 70) 64 32 0 0).toList.filterMap (fun d => frOf d.toOp) = [(0, 29, 44, 3, 0, true)] := by
+  decide +kernel
+example : exBar.stateIcon ≠ 3 ∧ ¬ (exBar.modIcon ≥ 1 ∧ exBar.modIcon ≤ 7) := by decide
+example :
+    barSpan 1 (barLen (30 - 0) 100 64) 64 = some (0, 19) ∧ barSpan 2 (barLen (30 - 0) 100 64) 64 = some (18, 3) ∧
+    barSpan 3 (barLen (30 - 0) 100 64) 64 = some (19, 13) ∧ barSpan 3 (barLen (70 - 0) 100 64) 64 = some (32, 12) := by
+  decide +kernel
 
 /-! ## centre -/
 
@@ -611,10 +1010,80 @@ theorem band_centred (inp : TileIn) (inv : Bool) (w h : Nat) (shrink border : In
         omega
 
 
+theorem shr1_fit (aw sw : Int) (h0 : 0 ≤ aw) (h1 : sw ≤ aw) :
+    0 ≤ shr1 (Tile.constrain (aw - sw) 0 aw) ∧ shr1 (Tile.constrain (aw - sw) 0 aw) + sw ≤ aw := by
+  unfold shr1 Tile.constrain
+  split
+  · omega
+  · split <;> omega
+
+theorem plainStyle_tsH (inp : TileIn) : 1 ≤ (plainStyle inp).tsH := by
+  unfold plainStyle; exact setTextSize_tsH _ _ _
+
+/-- a non-empty string that starts with a letter or digit is at least one pixel wide in proportional mode -/
+theorem strWidth_pos (t : TextSt) (hp : t.prop = true) (hh : 1 ≤ t.tsH) (s : List Nat) (hne : s ≠ [])
+    (he : edgeAlnum s = true) : 1 ≤ strWidth t s := by
+  obtain ⟨c0, rest, pre, cL, hs0, _, ha0, _⟩ := edge_decomp s hne he
+  obtain ⟨h2, _, _, _⟩ := edge_glyph t hp c0 ha0
+  rw [strWidth_eq, hs0]
+  simp only [advSum]
+  have hr := advSum_nonneg t (by omega) rest
+  have m0 : (2 : Int) * t.tsH ≤ (charWidth t c0 : Int) * t.tsH := Int.mul_le_mul_of_nonneg_right (by omega) (by omega)
+  omega
+
+/-- one row band of the tile whose lit pixels are exactly the ink of one centred text that lies **vertically** inside
+the active area: the Spec's centring clause holds — if the text also fits horizontally by `band_centred`, and if it is too
+wide because its left margin was clamped to 0, so that it shows nothing or ink in the left-most active column
+(`text_left_touch`) -/
+theorem band_centred_v (inp : TileIn) (inv : Bool) (w h : Nat) (shrink border : Int) (hb : 0 ≤ border)
+    (A : Nat → Nat → Bool) (ya yb : Int) (t : TextSt) (s : List Nat)
+    (hlit : ∀ X Y, X < w → Y < h → (litIn inv A ya yb (X, Y) ↔ textR (tileGeo inv w h shrink border) t s X Y))
+    (hp : t.prop = true) (hsp : t.spacing = 0) (hh : 1 ≤ t.tsH) (hv : 1 ≤ t.tsV)
+    (h13 : 13 ∉ s) (he : edgeAlnum s = true) (hvf : s ≠ [] → TextVFits (tileGeo inv w h shrink border) t)
+    (hcx : t.cx = shr1 (Tile.constrain ((activeWH w h shrink border).1 - strWidth t s) 0 (activeWH w h shrink border).1)) :
+    Spec.Tile.centredIn (specCase inp inv w h shrink border) A ya yb = true := by
+  by_cases hsw : strWidth t s ≤ (activeWH w h shrink border).1
+  · refine band_centred inp inv w h shrink border hb A ya yb t s hlit hp hsp hh hv h13 he ?_ hcx
+    intro hne
+    obtain ⟨v1, v2⟩ := hvf hne
+    have hpos := strWidth_pos t hp hh s hne he
+    obtain ⟨c1, c2⟩ := shr1_fit _ _ (by omega) hsw
+    exact ⟨by rw [hcx]; exact c1, by rw [hcx]; exact c2, v1, v2⟩
+  · have hin : ∀ X Y, textR (tileGeo inv w h shrink border) t s X Y → X < w ∧ Y < h := by
+      intro X Y hr
+      have := inClip_bounds (textR_clip _ s t X Y hr)
+      have e1 : (tileGeo inv w h shrink border).W = w := rfl
+      have e2 : (tileGeo inv w h shrink border).H = h := rfl
+      rw [e1, e2] at this
+      omega
+    by_cases hne : s = []
+    · refine centredIn_of_region _ A ya yb (textR (tileGeo inv w h shrink border) t s) hlit hin (Or.inl ?_)
+      subst hne; intro X Y hr; exact hr
+    · obtain ⟨c0, rest, pre, cL, hs0, _, ha0, _⟩ := edge_decomp s hne he
+      have hcx0 : t.cx = 0 := by
+        rw [hcx]; unfold shr1 Tile.constrain
+        rw [if_pos (by omega)]; rfl
+      rcases text_left_touch (tileGeo inv w h shrink border) t c0 rest hp hh hv ha0 (tileGeo_box inv w h shrink border hb)
+          hcx0 (hvf hne) with hnone | ⟨X, Y, hR, hX⟩
+      · refine centredIn_of_region _ A ya yb (textR (tileGeo inv w h shrink border) t s) hlit hin (Or.inl ?_)
+        rw [hs0]; exact hnone
+      · refine centredIn_of_left_touch _ A ya yb (textR (tileGeo inv w h shrink border) t s) hlit hin ⟨X, Y, by rw [hs0]; exact hR, ?_⟩
+        rw [active_xy inp inv w h shrink border hb]
+        exact hX
+
 /-- every (non-empty) text the layout renders has its text box inside the active area -/
 def TileTextFits (inp : TileIn) (inv : Bool) (w h : Nat) (shrink border : Int) : Prop :=
   ∀ t s, DOp.text t s ∈ (tileAcc inp w h shrink border).ops.toList → s ≠ [] →
     TextFits (tileGeo inv w h shrink border) t s
+
+/-- every (non-empty) text the layout renders lies vertically inside the active area -/
+def TileTextVFits (inp : TileIn) (inv : Bool) (w h : Nat) (shrink border : Int) : Prop :=
+  ∀ t s, DOp.text t s ∈ (tileAcc inp w h shrink border).ops.toList → s ≠ [] →
+    TextVFits (tileGeo inv w h shrink border) t
+
+theorem TileTextFits.v {inp : TileIn} {inv : Bool} {w h : Nat} {shrink border : Int}
+    (hf : TileTextFits inp inv w h shrink border) : TileTextVFits inp inv w h shrink border :=
+  fun t s hm hne => ⟨(hf t s hm hne).cy, (hf t s hm hne).h⟩
 
 theorem renderTile_start (inp : TileIn) (inv : Bool) (w h : Nat) (shrink border : Int) :
     renderTile inp inv w h shrink border =
@@ -635,25 +1104,27 @@ theorem centre_ok_fmt10 (inp : TileIn) (inv : Bool) (w h : Nat) (shrink border :
     (hf : inp.fmt = 10) (hprop : (inp.styling.getD {}).fixedWidth = false)
     (hsp : (inp.styling.getD {}).extraSp.emod 4 = 0)
     (hlf : 10 ∉ inp.title) (hcr : 13 ∉ inp.title) (he : edgeAlnum inp.title = true)
-    (hfit : TileTextFits inp inv w h shrink border) :
-    Spec.Tile.centreOk (specCase inp inv w h shrink border) (getPx (renderTile inp inv w h shrink border)) = true := by
+    (hfit : TileTextVFits inp inv w h shrink border) (LH : Int)
+    (hfv : Spec.Tile.fitsV (specCase inp inv w h shrink border) LH = true) :
+    Spec.Tile.centreOk (specCase inp inv w h shrink border) (getPx (renderTile inp inv w h shrink border)) LH = true := by
   obtain ⟨t0, hops, hpt, hcx, _⟩ := tileAcc_fmt10 inp w h shrink border hf
   have hrt : renderTile inp inv w h shrink border =
       (renderText (startCanvas inv w h shrink border, t0) inp.title).1 := by
     rw [renderTile_start, hops]; rfl
-  have hfit0 : inp.title ≠ [] → TextFits (tileGeo inv w h shrink border) t0 inp.title :=
+  have hfit0 : inp.title ≠ [] → TextVFits (tileGeo inv w h shrink border) t0 :=
     hfit t0 inp.title (by rw [hops]; simp)
   unfold Spec.Tile.centreOk
   rw [active_xy inp inv w h shrink border hb]
   have hcond : ((specCase inp inv w h shrink border).fmt = 10 ∨ (specCase inp inv w h shrink border).fmt = 11) ∧
       (specCase inp inv w h shrink border).proportional = true ∧ (specCase inp inv w h shrink border).extraSp.emod 4 = 0 ∧
-      (specCase inp inv w h shrink border).noLF = true ∧ (specCase inp inv w h shrink border).edgeInk = true :=
-    ⟨Or.inl hf, by unfold specCase; simp [hprop], hsp, rfl, rfl⟩
+      (specCase inp inv w h shrink border).noLF = true ∧ (specCase inp inv w h shrink border).edgeInk = true ∧
+      0 ≤ (specCase inp inv w h shrink border).border ∧ Spec.Tile.fitsV (specCase inp inv w h shrink border) LH = true :=
+    ⟨Or.inl hf, by unfold specCase; simp [hprop], hsp, rfl, rfl, hb, hfv⟩
   rw [if_pos hcond]
   simp only []
   have hf' : (specCase inp inv w h shrink border).fmt = 10 := hf
   rw [if_pos hf']
-  refine band_centred inp inv w h shrink border hb _ _ _ t0 inp.title ?_ (by rw [hpt.prop, hprop]; rfl)
+  refine band_centred_v inp inv w h shrink border hb _ _ _ t0 inp.title ?_ (by rw [hpt.prop, hprop]; rfl)
     (by rw [hpt.spacing, hsp]; rfl) hpt.tsH hpt.tsV.1 hcr he hfit0 hcx
   intro X Y hX hY
   rw [hrt]
@@ -704,23 +1175,25 @@ theorem centre_ok_fmt11 (inp : TileIn) (inv : Bool) (w h : Nat) (shrink border :
     (hsp : (inp.styling.getD {}).extraSp.emod 4 = 0)
     (hlf1 : 10 ∉ inp.line1) (hcr1 : 13 ∉ inp.line1) (he1 : edgeAlnum inp.line1 = true)
     (hlf2 : 10 ∉ inp.line2) (hcr2 : 13 ∉ inp.line2) (he2 : edgeAlnum inp.line2 = true)
-    (hfit : TileTextFits inp inv w h shrink border) :
-    Spec.Tile.centreOk (specCase inp inv w h shrink border) (getPx (renderTile inp inv w h shrink border)) = true := by
+    (hfit : TileTextVFits inp inv w h shrink border) (LH : Int)
+    (hfv : Spec.Tile.fitsV (specCase inp inv w h shrink border) LH = true) :
+    Spec.Tile.centreOk (specCase inp inv w h shrink border) (getPx (renderTile inp inv w h shrink border)) LH = true := by
   obtain ⟨t1, t2, hops, hpt1, hst, hcx1, hcy1, hcx2, hcy2⟩ := tileAcc_fmt11 inp w h shrink border hf
   have hpt2 : PlainText inp t2 := hpt1.of_style hst
   have hrt : renderTile inp inv w h shrink border =
       (renderText ((renderText (startCanvas inv w h shrink border, t1) inp.line1).1, t2) inp.line2).1 := by
     rw [renderTile_start, hops]; rfl
-  have hfit1 : inp.line1 ≠ [] → TextFits (tileGeo inv w h shrink border) t1 inp.line1 :=
+  have hfit1 : inp.line1 ≠ [] → TextVFits (tileGeo inv w h shrink border) t1 :=
     hfit t1 inp.line1 (by rw [hops]; simp)
-  have hfit2 : inp.line2 ≠ [] → TextFits (tileGeo inv w h shrink border) t2 inp.line2 :=
+  have hfit2 : inp.line2 ≠ [] → TextVFits (tileGeo inv w h shrink border) t2 :=
     hfit t2 inp.line2 (by rw [hops]; simp)
   unfold Spec.Tile.centreOk
   rw [active_xy inp inv w h shrink border hb]
   have hcond : ((specCase inp inv w h shrink border).fmt = 10 ∨ (specCase inp inv w h shrink border).fmt = 11) ∧
       (specCase inp inv w h shrink border).proportional = true ∧ (specCase inp inv w h shrink border).extraSp.emod 4 = 0 ∧
-      (specCase inp inv w h shrink border).noLF = true ∧ (specCase inp inv w h shrink border).edgeInk = true :=
-    ⟨Or.inr hf, by unfold specCase; simp [hprop], hsp, rfl, rfl⟩
+      (specCase inp inv w h shrink border).noLF = true ∧ (specCase inp inv w h shrink border).edgeInk = true ∧
+      0 ≤ (specCase inp inv w h shrink border).border ∧ Spec.Tile.fitsV (specCase inp inv w h shrink border) LH = true :=
+    ⟨Or.inr hf, by unfold specCase; simp [hprop], hsp, rfl, rfl, hb, hfv⟩
   rw [if_pos hcond]
   simp only []
   have hf' : ¬ (specCase inp inv w h shrink border).fmt = 10 := by
@@ -740,7 +1213,7 @@ theorem centre_ok_fmt11 (inp : TileIn) (inv : Bool) (w h : Nat) (shrink border :
       hpt2.wrap hpt2.tcol hpt2.tbg X Y hX hY
   rw [Bool.and_eq_true]
   constructor
-  · refine band_centred inp inv w h shrink border hb _ _ _ t1 inp.line1 ?_ (by rw [hpt1.prop, hprop]; rfl)
+  · refine band_centred_v inp inv w h shrink border hb _ _ _ t1 inp.line1 ?_ (by rw [hpt1.prop, hprop]; rfl)
       (by rw [hpt1.spacing, hsp]; rfl) hpt1.tsH hpt1.tsV.1 hcr1 he1 hfit1 hcx1
     intro X Y hX hY
     rw [hrt]
@@ -759,7 +1232,7 @@ theorem centre_ok_fmt11 (inp : TileIn) (inv : Bool) (w h : Nat) (shrink border :
       have r2 := (textR_yrange _ _ t1 (by have := hpt1.tsV.1; omega) X Y hr).2
       rw [hcy1, ebyy, lh1] at r2
       exact ⟨r1.1, by omega, (key X Y hX hY).2 (Or.inl hr)⟩
-  · refine band_centred inp inv w h shrink border hb _ _ _ t2 inp.line2 ?_ (by rw [hpt2.prop, hprop]; rfl)
+  · refine band_centred_v inp inv w h shrink border hb _ _ _ t2 inp.line2 ?_ (by rw [hpt2.prop, hprop]; rfl)
       (by rw [hpt2.spacing, hsp]; rfl) hpt2.tsH hpt2.tsV.1 hcr2 he2 hfit2 hcx2
     intro X Y hX hY
     rw [hrt]
@@ -780,6 +1253,72 @@ theorem centre_ok_fmt11 (inp : TileIn) (inv : Bool) (w h : Nat) (shrink border :
       exact ⟨by omega, r1.2, (key X Y hX hY).2 (Or.inr hr)⟩
 
 
+/-! ### "fits" from arithmetic on the inputs -/
+
+/-- **fits, from the inputs** (formats 10/11): if the active width is not negative, every non-empty rendered string is —
+measured with `StrWidth` in the format's own text state `plainStyle inp`, a function of the styling fields — at most as
+wide as the active area, and the line(s) fit vertically (`linesFit`: `LineHeight ≤ activeHeight` for one line,
+`2·LineHeight ≤ activeHeight` for two), then every text box the layout emits lies inside the active area -/
+theorem fits_of_arith (inp : TileIn) (inv : Bool) (w h : Nat) (shrink border : Int)
+    (hfmt : inp.fmt = 10 ∨ inp.fmt = 11)
+    (H : ∀ s ∈ (if inp.fmt = 10 then [inp.title] else [inp.line1, inp.line2]), s ≠ [] →
+      0 ≤ (activeWH w h shrink border).1 ∧ strWidth (plainStyle inp) s ≤ (activeWH w h shrink border).1 ∧
+      linesFit inp (activeWH w h shrink border).2) :
+    TileTextFits inp inv w h shrink border := by
+  intro t s hm hne
+  rcases hfmt with hf | hf
+  · obtain ⟨t0, hops, hpt, hcx, hcy⟩ := tileAcc_fmt10 inp w h shrink border hf
+    obtain ⟨x, y, hops'⟩ := tileAcc_fmt10_style inp w h shrink border hf
+    rw [hops] at hm hops'
+    simp only [List.mem_singleton, DOp.text.injEq] at hm
+    obtain ⟨rfl, rfl⟩ := hm
+    have et : t = setCursor (plainStyle inp) x y := by
+      have := congrArg (fun a => a[0]?) hops'
+      simpa using this
+    have hst : SameStyle (plainStyle inp) t := by rw [et]; exact setCursor_style _ _ _
+    obtain ⟨h0, hw, hl⟩ := H inp.title (by rw [if_pos hf]; simp) hne
+    unfold linesFit at hl
+    rw [if_pos hf, ← lineHeight_style _ _ hst] at hl
+    rw [← strWidth_style _ _ hst] at hw
+    have lh := lineHeight_small t hpt.tsV.1 hpt.tsV.2
+    obtain ⟨c1, c2⟩ := shr1_fit _ _ h0 hw
+    refine ⟨by rw [hcx]; exact c1, by rw [hcx]; exact c2, ?_, ?_⟩
+    · rw [hcy]; unfold shr1; omega
+    · show t.cy + (t.fp.bbH : Int) * t.tsV ≤ (activeWH w h shrink border).2
+      rw [hcy, ← lh]; unfold shr1; omega
+  · obtain ⟨t1, t2, hops, hpt1, hst12, hcx1, hcy1, hcx2, hcy2⟩ := tileAcc_fmt11 inp w h shrink border hf
+    obtain ⟨x1, y1, t2', hops', hst2'⟩ := tileAcc_fmt11_style inp w h shrink border hf
+    have h10 : ¬ inp.fmt = 10 := by omega
+    rw [hops] at hm hops'
+    have e1 : t1 = setCursor (plainStyle inp) x1 y1 := by
+      have := congrArg (fun a => a[0]?) hops'
+      simpa using this
+    have hs1 : SameStyle (plainStyle inp) t1 := by rw [e1]; exact setCursor_style _ _ _
+    have hs2 : SameStyle (plainStyle inp) t2 := hs1.trans hst12
+    have hpt2 : PlainText inp t2 := hpt1.of_style hst12
+    simp only [List.mem_cons, DOp.text.injEq, List.mem_nil_iff, or_false] at hm
+    rcases hm with ⟨rfl, rfl⟩ | ⟨rfl, rfl⟩
+    · obtain ⟨h0, hw, hl⟩ := H inp.line1 (by rw [if_neg h10]; simp) hne
+      unfold linesFit at hl
+      rw [if_neg h10, ← lineHeight_style _ _ hs1] at hl
+      rw [← strWidth_style _ _ hs1] at hw
+      have lh := lineHeight_small t hpt1.tsV.1 hpt1.tsV.2
+      obtain ⟨c1, c2⟩ := shr1_fit _ _ h0 hw
+      refine ⟨by rw [hcx1]; exact c1, by rw [hcx1]; exact c2, ?_, ?_⟩
+      · rw [hcy1]; unfold shr1; omega
+      · show t.cy + (t.fp.bbH : Int) * t.tsV ≤ (activeWH w h shrink border).2
+        rw [hcy1, ← lh]; unfold shr1; omega
+    · obtain ⟨h0, hw, hl⟩ := H inp.line2 (by rw [if_neg h10]; simp) hne
+      unfold linesFit at hl
+      rw [if_neg h10, ← lineHeight_style _ _ hs2] at hl
+      rw [← strWidth_style _ _ hs2] at hw
+      have lh := lineHeight_small t hpt2.tsV.1 hpt2.tsV.2
+      obtain ⟨c1, c2⟩ := shr1_fit _ _ h0 hw
+      refine ⟨by rw [hcx2]; exact c1, by rw [hcx2]; exact c2, ?_, ?_⟩
+      · rw [hcy2]; unfold shr1; omega
+      · show t.cy + (t.fp.bbH : Int) * t.tsV ≤ (activeWH w h shrink border).2
+        rw [hcy2, ← lh]; unfold shr1; omega
+
 /-- the strings the one/two-line formats render -/
 def plainStrings (inp : TileIn) : List (List Nat) := if inp.fmt = 10 then [inp.title] else [inp.line1, inp.line2]
 
@@ -790,29 +1329,155 @@ Spec's own guard ("the observed ink is strictly inside the active area"): every 
 box, and left and right margin differ by at most one pixel. -/
 theorem centre_ok_partial (inp : TileIn) (inv : Bool) (w h : Nat) (shrink border : Int) (hb : 0 ≤ border)
     (hstr : ∀ s ∈ plainStrings inp, 10 ∉ s ∧ 13 ∉ s ∧ edgeAlnum s = true)
-    (hfit : TileTextFits inp inv w h shrink border) :
-    Spec.Tile.centreOk (specCase inp inv w h shrink border) (getPx (renderTile inp inv w h shrink border)) = true := by
+    (hfit : TileTextFits inp inv w h shrink border) (LH : Int) :
+    Spec.Tile.centreOk (specCase inp inv w h shrink border) (getPx (renderTile inp inv w h shrink border)) LH = true := by
   by_cases hcond : ((specCase inp inv w h shrink border).fmt = 10 ∨ (specCase inp inv w h shrink border).fmt = 11) ∧
       (specCase inp inv w h shrink border).proportional = true ∧ (specCase inp inv w h shrink border).extraSp.emod 4 = 0 ∧
-      (specCase inp inv w h shrink border).noLF = true ∧ (specCase inp inv w h shrink border).edgeInk = true
-  · obtain ⟨hfmt, hprop, hsp, _, _⟩ := hcond
+      (specCase inp inv w h shrink border).noLF = true ∧ (specCase inp inv w h shrink border).edgeInk = true ∧
+      0 ≤ (specCase inp inv w h shrink border).border ∧ Spec.Tile.fitsV (specCase inp inv w h shrink border) LH = true
+  · obtain ⟨hfmt, hprop, hsp, _, _, _, hfv⟩ := hcond
     have hprop' : (inp.styling.getD {}).fixedWidth = false := by
       have : (!(inp.styling.getD {}).fixedWidth) = true := hprop
       simpa using this
     rcases hfmt with hf | hf
     · have hf' : inp.fmt = 10 := hf
       obtain ⟨a, b, c⟩ := hstr inp.title (by unfold plainStrings; rw [if_pos hf']; simp)
-      exact centre_ok_fmt10 inp inv w h shrink border hb hf' hprop' hsp a b c hfit
+      exact centre_ok_fmt10 inp inv w h shrink border hb hf' hprop' hsp a b c hfit.v LH hfv
     · have hf' : inp.fmt = 11 := hf
       have h10 : ¬ inp.fmt = 10 := by omega
       obtain ⟨a1, b1, c1⟩ := hstr inp.line1 (by unfold plainStrings; rw [if_neg h10]; simp)
       obtain ⟨a2, b2, c2⟩ := hstr inp.line2 (by unfold plainStrings; rw [if_neg h10]; simp)
-      exact centre_ok_fmt11 inp inv w h shrink border hb hf' hprop' hsp a1 b1 c1 a2 b2 c2 hfit
+      exact centre_ok_fmt11 inp inv w h shrink border hb hf' hprop' hsp a1 b1 c1 a2 b2 c2 hfit.v LH hfv
   · unfold Spec.Tile.centreOk
     rw [if_neg hcond]
 
-/-- **all clauses of `Spec.Tile.check` together** for a rendering and its inverted twin (determinism holds by
-construction: `renderTile` is a function), under the hypotheses of `centre_ok_partial` -/
+/-- **vertical fit, from the inputs** (formats 10/11): if the line(s) fit vertically (`linesFit`: `LineHeight ≤ activeHeight`
+for one line, `2·LineHeight ≤ activeHeight` for two), every text box the layout emits lies vertically inside the active area -/
+theorem vfits_of_arith (inp : TileIn) (inv : Bool) (w h : Nat) (shrink border : Int)
+    (hfmt : inp.fmt = 10 ∨ inp.fmt = 11) (hl : linesFit inp (activeWH w h shrink border).2) :
+    TileTextVFits inp inv w h shrink border := by
+  intro t s hm hne
+  rcases hfmt with hf | hf
+  · obtain ⟨t0, hops, hpt, hcx, hcy⟩ := tileAcc_fmt10 inp w h shrink border hf
+    obtain ⟨x, y, hops'⟩ := tileAcc_fmt10_style inp w h shrink border hf
+    rw [hops] at hm hops'
+    simp only [List.mem_singleton, DOp.text.injEq] at hm
+    obtain ⟨rfl, rfl⟩ := hm
+    have et : t = setCursor (plainStyle inp) x y := by
+      have := congrArg (fun a => a[0]?) hops'
+      simpa using this
+    have hst : SameStyle (plainStyle inp) t := by rw [et]; exact setCursor_style _ _ _
+    unfold linesFit at hl
+    rw [if_pos hf, ← lineHeight_style _ _ hst] at hl
+    have lh := lineHeight_small t hpt.tsV.1 hpt.tsV.2
+    refine ⟨?_, ?_⟩
+    · rw [hcy]; unfold shr1; omega
+    · show t.cy + (t.fp.bbH : Int) * t.tsV ≤ (activeWH w h shrink border).2
+      rw [hcy, ← lh]; unfold shr1; omega
+  · obtain ⟨t1, t2, hops, hpt1, hst12, hcx1, hcy1, hcx2, hcy2⟩ := tileAcc_fmt11 inp w h shrink border hf
+    obtain ⟨x1, y1, t2', hops', hst2'⟩ := tileAcc_fmt11_style inp w h shrink border hf
+    have h10 : ¬ inp.fmt = 10 := by omega
+    rw [hops] at hm hops'
+    have e1 : t1 = setCursor (plainStyle inp) x1 y1 := by
+      have := congrArg (fun a => a[0]?) hops'
+      simpa using this
+    have hs1 : SameStyle (plainStyle inp) t1 := by rw [e1]; exact setCursor_style _ _ _
+    have hs2 : SameStyle (plainStyle inp) t2 := hs1.trans hst12
+    have hpt2 : PlainText inp t2 := hpt1.of_style hst12
+    unfold linesFit at hl
+    rw [if_neg h10] at hl
+    simp only [List.mem_cons, DOp.text.injEq, List.mem_nil_iff, or_false] at hm
+    rcases hm with ⟨rfl, rfl⟩ | ⟨rfl, rfl⟩
+    · rw [← lineHeight_style _ _ hs1] at hl
+      have lh := lineHeight_small t hpt1.tsV.1 hpt1.tsV.2
+      refine ⟨?_, ?_⟩
+      · rw [hcy1]; unfold shr1; omega
+      · show t.cy + (t.fp.bbH : Int) * t.tsV ≤ (activeWH w h shrink border).2
+        rw [hcy1, ← lh]; unfold shr1; omega
+    · rw [← lineHeight_style _ _ hs2] at hl
+      have lh := lineHeight_small t hpt2.tsV.1 hpt2.tsV.2
+      refine ⟨?_, ?_⟩
+      · rw [hcy2]; unfold shr1; omega
+      · show t.cy + (t.fp.bbH : Int) * t.tsV ≤ (activeWH w h shrink border).2
+        rw [hcy2, ← lh]; unfold shr1; omega
+
+/-- the centring clause from vertical fit alone (horizontally the text may fit or be too wide) -/
+theorem centre_ok_vpartial (inp : TileIn) (inv : Bool) (w h : Nat) (shrink border : Int) (hb : 0 ≤ border)
+    (hstr : ∀ s ∈ plainStrings inp, 10 ∉ s ∧ 13 ∉ s ∧ edgeAlnum s = true)
+    (hfit : TileTextVFits inp inv w h shrink border) (LH : Int) :
+    Spec.Tile.centreOk (specCase inp inv w h shrink border) (getPx (renderTile inp inv w h shrink border)) LH = true := by
+  by_cases hcond : ((specCase inp inv w h shrink border).fmt = 10 ∨ (specCase inp inv w h shrink border).fmt = 11) ∧
+      (specCase inp inv w h shrink border).proportional = true ∧ (specCase inp inv w h shrink border).extraSp.emod 4 = 0 ∧
+      (specCase inp inv w h shrink border).noLF = true ∧ (specCase inp inv w h shrink border).edgeInk = true ∧
+      0 ≤ (specCase inp inv w h shrink border).border ∧ Spec.Tile.fitsV (specCase inp inv w h shrink border) LH = true
+  · obtain ⟨hfmt, hprop, hsp, _, _, _, hfv⟩ := hcond
+    have hprop' : (inp.styling.getD {}).fixedWidth = false := by
+      have : (!(inp.styling.getD {}).fixedWidth) = true := hprop
+      simpa using this
+    rcases hfmt with hf | hf
+    · have hf' : inp.fmt = 10 := hf
+      obtain ⟨a, b, c⟩ := hstr inp.title (by unfold plainStrings; rw [if_pos hf']; simp)
+      exact centre_ok_fmt10 inp inv w h shrink border hb hf' hprop' hsp a b c hfit LH hfv
+    · have hf' : inp.fmt = 11 := hf
+      have h10 : ¬ inp.fmt = 10 := by omega
+      obtain ⟨a1, b1, c1⟩ := hstr inp.line1 (by unfold plainStrings; rw [if_neg h10]; simp)
+      obtain ⟨a2, b2, c2⟩ := hstr inp.line2 (by unfold plainStrings; rw [if_neg h10]; simp)
+      exact centre_ok_fmt11 inp inv w h shrink border hb hf' hprop' hsp a1 b1 c1 a2 b2 c2 hfit LH hfv
+  · unfold Spec.Tile.centreOk
+    rw [if_neg hcond]
+
+/-- the line height the renderer reports after the call (`LineHeight()` of the returned image) -/
+def tileLineHeight (inp : TileIn) (w h : Nat) (shrink border : Int) : Int := lineHeight (tileAcc inp w h shrink border).t
+
+/-- **centre** (`Spec.Tile.centreOk`), **no hypothesis beyond the Spec's own domain**: for every text state whose rendered
+strings of the one/two-line formats contain no LF/CR and start and end with a letter or digit (the Spec's `noLF`,
+`edgeInk`), every geometry and inversion, the clause holds of the rendering and the reported line height.  The Spec's
+guard — formats 10/11, proportional, no extra spacing, border ≥ 0, the line(s) fit the active height (`fitsV`, with the
+renderer's own `LineHeight()`) — gives `linesFit` on the inputs; then a text that fits horizontally has its ink ends at the
+box ends (`fits_of_arith`, `text_ink_extent`), and a too-wide text shows nothing or ink in the left-most active column
+(`text_left_touch`).  `centre_needs_vertical_fit_counterexample`: the guard `fitsV` cannot be dropped. -/
+theorem centre_ok (inp : TileIn) (inv : Bool) (w h : Nat) (shrink border : Int)
+    (hstr : ∀ s ∈ plainStrings inp, 10 ∉ s ∧ 13 ∉ s ∧ edgeAlnum s = true) :
+    Spec.Tile.centreOk (specCase inp inv w h shrink border) (getPx (renderTile inp inv w h shrink border))
+      (tileLineHeight inp w h shrink border) = true := by
+  by_cases hg : (inp.fmt = 10 ∨ inp.fmt = 11) ∧ 0 ≤ border ∧
+      Spec.Tile.fitsV (specCase inp inv w h shrink border) (tileLineHeight inp w h shrink border) = true
+  · obtain ⟨hfmt, hb, hfv⟩ := hg
+    have hl : linesFit inp (activeWH w h shrink border).2 := by
+      have hst := tileAcc_plain_t inp w h shrink border hfmt
+      have e : (lineHeight (plainStyle inp) : Int) = tileLineHeight inp w h shrink border := by
+        unfold tileLineHeight; rw [lineHeight_style _ _ hst]
+      unfold Spec.Tile.fitsV at hfv
+      rw [active_xy inp inv w h shrink border hb] at hfv
+      simp only [] at hfv
+      have efmt : (specCase inp inv w h shrink border).fmt = inp.fmt := rfl
+      rw [efmt] at hfv
+      unfold linesFit
+      rw [e]
+      by_cases h10 : inp.fmt = 10
+      · rw [if_pos h10] at hfv ⊢; simp only [decide_eq_true_eq] at hfv; omega
+      · rw [if_neg h10] at hfv ⊢; simp only [decide_eq_true_eq] at hfv; omega
+    exact centre_ok_vpartial inp inv w h shrink border hb hstr (vfits_of_arith inp inv w h shrink border hfmt hl) _
+  · unfold Spec.Tile.centreOk
+    rw [if_neg]
+    intro hc
+    exact hg ⟨hc.1, hc.2.2.2.2.2.1, hc.2.2.2.2.2.2⟩
+
+/-- **the vertical-fit guard of the centring clause is needed** (the property text says "fits … horizontally and
+vertically"): two lines in a 64×4 tile (`LineHeight` 8), second line "j" — only the dot of the j is visible, strictly
+inside the active area, 33 dark columns to its left and 30 to its right.  Without the guard (`lineH := 0`) the clause is
+false of this rendering; with the reported line height 8 it does not apply.  Reproduced on the real renderer:
+record `tile.render 64 4 0 0 0 0 0 11 0 0 0 0 - - 6a ~ ~ ~ ~ 0 0`. -/
+theorem centre_needs_vertical_fit_counterexample :
+    Spec.Tile.centreOk (specCase { fmt := 11, line2 := [106] } false 64 4 0 0)
+      (getPx (renderTile { fmt := 11, line2 := [106] } false 64 4 0 0)) 0 = false ∧
+    tileLineHeight { fmt := 11, line2 := [106] } 64 4 0 0 = 8 ∧
+    (∀ s ∈ plainStrings { fmt := 11, line2 := [106] }, 10 ∉ s ∧ 13 ∉ s ∧ edgeAlnum s = true) := by
+  decide +kernel
+
+/-- **all clauses of `Spec.Tile.check` together** for a rendering, its inverted twin, the argument after the call and
+the RGB565 export (determinism holds by construction: `renderTile` is a function), under the hypotheses of
+`centre_ok_partial` -/
 theorem tile_check_partial (inp : TileIn) (inv : Bool) (w h : Nat) (shrink border : Int) (hb : 0 ≤ border)
     (hstr : ∀ s ∈ plainStrings inp, 10 ∉ s ∧ 13 ∉ s ∧ edgeAlnum s = true)
     (hfit : TileTextFits inp inv w h shrink border) :
@@ -820,15 +1485,69 @@ theorem tile_check_partial (inp : TileIn) (inv : Bool) (w h : Nat) (shrink borde
       (renderTile inp inv w h shrink border).geo.W (renderTile inp inv w h shrink border).geo.H
       (renderTile inp inv w h shrink border).bytes.size (renderTile inp (!inv) w h shrink border).bytes.size
       (getPx (renderTile inp inv w h shrink border)) (getPx (renderTile inp (!inv) w h shrink border))
-      (tileColours inp).1 (tileColours inp).2 true = none := by
+      (tileColours inp).1 (tileColours inp).2 true (obsArg inp inv) (obsArg (fillNil inp) inv)
+      ((tileRGB inp inv w h shrink border).map (fun r => (r.size, Pix.byteAt r))) (tileLineHeight inp w h shrink border) = none := by
   have s1 := tile_size_ok inp inv w h shrink border
   have s2 := (tile_size_ok inp (!inv) w h shrink border).1.2.2
   simp only [] at s1
   have hsz : (renderTile inp (!inv) w h shrink border).bytes.size = (renderTile inp inv w h shrink border).bytes.size := by
     rw [s2, s1.1.2.2]
+  obtain ⟨rgb, hr, hx⟩ := tile_export inp inv w h shrink border
   unfold Spec.Tile.check
-  rw [hsz, s1.2, tile_active_ok, tile_inversion_ok, tile_colours_ok, centre_ok_partial inp inv w h shrink border hb hstr hfit]
+  rw [hsz, s1.2, tile_active_ok, tile_inversion_ok, tile_colours_ok, centre_ok_partial inp inv w h shrink border hb hstr hfit,
+    tile_argument_ok]
+  have hx' : Spec.Tile.exportOk (specCase inp inv w h shrink border) (getPx (renderTile inp inv w h shrink border))
+      ((tileRGB inp inv w h shrink border).map (fun r => (r.size, Pix.byteAt r))) = true := by
+    rw [hr]; exact hx
+  rw [hx']
   rfl
+
+/-- **all clauses of `Spec.Tile.check` together**, for every text state whose one/two-line strings are in the Spec's domain
+(no LF/CR, alphanumeric ends), every geometry and inversion: rendering, inverted twin, colours, argument after the call,
+RGB565 export, reported line height -/
+theorem tile_check (inp : TileIn) (inv : Bool) (w h : Nat) (shrink border : Int)
+    (hstr : ∀ s ∈ plainStrings inp, 10 ∉ s ∧ 13 ∉ s ∧ edgeAlnum s = true) :
+    Spec.Tile.check (specCase inp inv w h shrink border)
+      (renderTile inp inv w h shrink border).geo.W (renderTile inp inv w h shrink border).geo.H
+      (renderTile inp inv w h shrink border).bytes.size (renderTile inp (!inv) w h shrink border).bytes.size
+      (getPx (renderTile inp inv w h shrink border)) (getPx (renderTile inp (!inv) w h shrink border))
+      (tileColours inp).1 (tileColours inp).2 true (obsArg inp inv) (obsArg (fillNil inp) inv)
+      ((tileRGB inp inv w h shrink border).map (fun r => (r.size, Pix.byteAt r))) (tileLineHeight inp w h shrink border) = none := by
+  have s1 := tile_size_ok inp inv w h shrink border
+  have s2 := (tile_size_ok inp (!inv) w h shrink border).1.2.2
+  simp only [] at s1
+  have hsz : (renderTile inp (!inv) w h shrink border).bytes.size = (renderTile inp inv w h shrink border).bytes.size := by
+    rw [s2, s1.1.2.2]
+  obtain ⟨rgb, hr, hx⟩ := tile_export inp inv w h shrink border
+  unfold Spec.Tile.check
+  rw [hsz, s1.2, tile_active_ok, tile_inversion_ok, tile_colours_ok, centre_ok inp inv w h shrink border hstr,
+    tile_argument_ok]
+  have hx' : Spec.Tile.exportOk (specCase inp inv w h shrink border) (getPx (renderTile inp inv w h shrink border))
+      ((tileRGB inp inv w h shrink border).map (fun r => (r.size, Pix.byteAt r))) = true := by
+    rw [hr]; exact hx
+  rw [hx']
+  rfl
+
+/-- non-vacuity of `centre_ok` / `tile_check` (one line): "Ab1" is 15 pixels wide and 8 high, the tile 64×32 -/
+def exOneLine : TileIn := { fmt := 10, title := [65, 98, 49] }
+example :
+    (∀ s ∈ plainStrings exOneLine, 10 ∉ s ∧ 13 ∉ s ∧ edgeAlnum s = true) ∧
+    (∀ s ∈ plainStrings exOneLine, strWidth (plainStyle exOneLine) s ≤ (activeWH 64 32 0 0).1) ∧
+    linesFit exOneLine (activeWH 64 32 0 0).2 ∧
+    strWidth (plainStyle exOneLine) [65, 98, 49] = 15 ∧ lineHeight (plainStyle exOneLine) = 8 := by
+  decide +kernel
+
+/-- non-vacuity (two lines, size 2, one pixel shaved off by `shrink`, border 1) -/
+def exTwoLines : TileIn := { fmt := 11, line1 := [72, 105], line2 := [55, 120, 90], styling := some { unfSize := 2 } }
+example :
+    (∀ s ∈ plainStrings exTwoLines, 10 ∉ s ∧ 13 ∉ s ∧ edgeAlnum s = true) ∧
+    (∀ s ∈ plainStrings exTwoLines, strWidth (plainStyle exTwoLines) s ≤ (activeWH 64 34 1 1).1) ∧
+    linesFit exTwoLines (activeWH 64 34 1 1).2 := by
+  decide +kernel
+
+/-- the width hypothesis is a real restriction: ten capital W at size 2 do not fit 64 pixels -/
+example : ¬ strWidth (plainStyle { fmt := 10, title := List.replicate 10 87, styling := some { unfSize := 2 } })
+    (List.replicate 10 87) ≤ (activeWH 64 32 0 0).1 := by decide +kernel
 
 /-- the text operations of an operation list (decidable view used by the examples) -/
 def textOf : DOp → Option (TextSt × List Nat)
